@@ -340,6 +340,16 @@ def check_success_criterion(F, run, name, b):
                       "Ok can be returned because `%s` holds; this involves neither a function value nor the bracket width (it is not implied by a zero-width "
                       "bracket): a point is returned because it is near the origin, not because it is a root" % dj,
                       sample="%s: success when %s" % (name, str(dj)[:70]))
+            if name in ("brent", "itp"):
+                # the statement makes Brent's and ITP's tolerance absolute: wherever the tolerance bounds a width or a function value its coefficient is a constant
+                for l in (dj.args if isinstance(dj, sp.And) else (dj,)):
+                    l0 = l.args[0] if isinstance(l, sp.Not) else l
+                    if not isinstance(l0, sp.core.relational.Relational) or tolsym not in l0.free_symbols:
+                        continue
+                    c = sp.expand(l0.lhs - l0.rhs).coeff(tolsym)
+                    run.check(bool(c.is_number and c != 0), "R7.3", dp, "absolute-tolerance:" + str(dj)[:50], F.loc(b, cnode),
+                              "in the success condition `%s` the tolerance is scaled by %s: %s's tolerance is absolute (a bracket far from the origin would be accepted at a "
+                              "width of tol·|x|)" % (dj, c, name), sample="%s: tolerance enters `%s` with the constant factor %s" % (name, str(l0)[:50], c))
 
 
 def check_cached_values(F, run, name, b, loop):
@@ -595,6 +605,51 @@ def check_sign_reachability(F, run, name, b, loop):
     run.floor("R7.8", dp, "entry sign states", n_entry, 2, F.loc(b))
 
 
+def check_itp_orientation(F, run, b, loop):
+    """R7.9 — ITP's projection radius r = tol·2^(n_max − j) − width/2 and its truncation δ = k_1·width^k_2 need the non-negative bracket width.
+    The ends are exchanged by sign (f(left) < 0 < f(right)), so for a decreasing function left > right: with a signed (right − left) the radius
+    exceeds the half-width on every iteration (the minmax safeguard never engages and the evaluation count is not bounded by n_1/2 + n_0) and δ is
+    NaN for non-integer k_2.  Either every path into the loop establishes left <= right, or r and δ are invariant under exchanging the ends."""
+    from bsa import logic
+    dp = FNS["itp"]
+    L, R = sym.S("left"), sym.S("right")
+
+    class Rec(HullInterp):
+        REBIND = {"delta": sym.S("DELTA"), "r": sym.S("RR")}
+    consts = constant_locals(F, b)
+    sym_ok = None
+    try:
+        lps = paths.explore(F, b, setup=preset_all(b, consts), node=loop["body"], interp_cls=Rec, limit=512)
+        recs = [getattr(p.interp, "recorded", {}) for p in lps]
+        exprs = [(nm, rc[nm]) for rc in recs for nm in ("delta", "r") if nm in rc and hasattr(rc[nm], "subs")]
+        if exprs:
+            tmp = sp.Symbol("_swap_tmp", real=True)
+            sym_ok = all(sp.simplify(e.subs({L: tmp, R: L}).subs({tmp: R}) - e) == 0 for _, e in exprs) and {nm for nm, _ in exprs} == {"delta", "r"}
+    except sym.Unsupported as u:
+        run.broken("R7.9", dp, "width-formulas", F.loc(b, loop), str(u))
+        return
+    if sym_ok is None:
+        run.broken("R7.9", dp, "width-formulas", F.loc(b, loop), "the truncation δ and the projection radius r were not found in the loop body")
+        return
+    ps = guards.prefix_paths(F, b)
+    n = 0
+    for p in ps:
+        if not p.fell_through:
+            continue
+        n += 1
+        cur = {nm: p.interp.env.get(i) for i, nm in p.interp.names.items()}
+        l_, r_ = cur.get("left"), cur.get("right")
+        pc = [c for c in p.pc if isinstance(c, sp.Basic) and not c.atoms(sp.core.function.AppliedUndef)]
+        ordered = l_ is not None and r_ is not None and logic.lin_entails(sp.And(*pc) if pc else sp.true, sp.Le(l_, r_))
+        inst = "[%s]" % ",".join("T" if not isinstance(c, sp.Not) else "F" for c in p.pc)
+        run.check(ordered or sym_ok, "R7.9", dp, "bracket-width-non-negative" + inst, F.loc(b, loop),
+                  "on the path %s into the iteration the bracket is (left, right) = (%s, %s), nothing establishes left <= right, and the truncation / projection radius use the "
+                  "signed difference (right − left): for a decreasing function (or a bracket given in reverse order) the radius always exceeds the half-width and the "
+                  "worst-case bound n_1/2 + n_0 on the number of evaluations is lost" % (inst, l_, r_),
+                  sample="itp entry path %s: %s" % (inst, "left <= right" if ordered else "δ and r are symmetric in the ends"))
+    run.floor("R7.9", dp, "paths into the loop", n, 1, F.loc(b))
+
+
 def check_nan_idiom(F, run):
     n_sites = 0
     for name, path in FNS.items():
@@ -667,6 +722,8 @@ def run(F, run, tier):
             check_counter_loop(F, run, b, loop)
         else:
             check_hull_brent_itp(F, run, name, b, loop)
+        if name == "itp":
+            check_itp_orientation(F, run, b, loop)
     n_nan = check_nan_idiom(F, run)
     check_sign_three_way(F, run)
     run.extra["sign_by_division_sites"] = n_nan
